@@ -260,7 +260,8 @@ def gate_code(sysname, name, ids):
     return None
 
 
-P1 = {"x": 0, "y": 1, "z": 2, "bell": 3, "01x3": 4, "01y3": 5, "z3": 6, "z2": 7, "02x3": 8, "02y3": 9, "12x3": 10, "12y3": 11}
+P1 = {"x": 0, "y": 1, "z": 2, "bell": 3, "01x3": 4, "01y3": 5, "z3": 6, "z2": 7, "02x3": 8, "02y3": 9, "12x3": 10, "12y3": 11,
+      "xxparity": 12, "zzparity": 13}
 MP = {n: k for k, n in enumerate(["x-type1", "y-type1", "z-type1", "bell-type1", "z3-type1", "z2-type1", "xxparity-type1", "zzparity-type1",
                                   "x-type2", "y-type2", "z-type2", "z3-type2", "z2-type2"])}
 MPSYS = {"x": "1qubit", "y": "1qubit", "z": "1qubit", "bell": "2qubit", "xxparity": "2qubit", "zzparity": "2qubit", "z3": "1qutrit", "z2": "1qutrit"}
@@ -348,6 +349,8 @@ def chk_states(ctx, case):
     q = Q(); sysname = case["sys"]; names = case["names"]; c = csys(sysname); d = c.dim; basis = basis_of(c)
     gen = q.qt.generate_state_object
     site = "state_typical.generate_state_object_from_state_name_object_name"
+    if case.get("light"):
+        return chk_states_light(ctx, case)
     objs = []
     for n in names:
         one = {"sys": sysname, "names": [n], "exact": case.get("exact", True)}
@@ -393,6 +396,32 @@ def chk_states(ctx, case):
             V(ctx, "states", "state_typical.generate_state_from_name", "unphysical", "state %r on %s is not physical (verdict %s, trace %.12g)" % (n, sysname, s.is_physical(), np.trace(rho).real), one)
 
 
+def chk_states_light(ctx, case):
+    """quick tier, 8- and 9-dimensional systems: EVERY listed name is generated as pure vector and density matrix and compared with
+    the Coq table (product tables are evaluated by the model: st_prod); the remaining object forms (coefficient vector, State object,
+    physicality) are checked by chk_states on a seeded sample of these names and on all of them in the thorough tier"""
+    q = Q(); sysname = case["sys"]; d = SYSDIM[sysname]; gen = q.qt.generate_state_object
+    site = "state_typical.generate_state_object_from_state_name_object_name"
+    for n in case["names"]:
+        one = {"sys": sysname, "names": [n], "light": True}
+        code = state_code(n)
+        ctx.count("states", key=(sysname, n, "light"), nontrivial=code is not None, label=sysname + "-light")
+        try:
+            v = np.asarray(gen(n, "pure_state_vector")); dm = np.asarray(gen(n, "density_mat"))
+        except Exception as e:
+            V(ctx, "states", site, "listed-name-not-generable", "state %r on %s: %s: %s" % (n, sysname, type(e).__name__, str(e)[:200]), one); continue
+        if v.shape != (d,):
+            V(ctx, "states", site, "shape", "pure vector of %r has shape %s on %s" % (n, v.shape, sysname), one); continue
+        if code is None:
+            V(ctx, "states", "state_typical.get_state_names", "name-not-in-table", "listed state name %r on %s has no textbook table" % (n, sysname), one); continue
+        t = tbl_state(ctx, code)
+        if mx(v, t) > TTOL:
+            V(ctx, "states", "state_typical.generate_state_pure_state_vector_from_name", "differs-from-table",
+              "pure vector of %r differs from the textbook table by %.3g" % (n, mx(v, t)), one)
+        if mx(dm, np.outer(v, v.conj())) > TTOL:
+            V(ctx, "states", "state_typical.generate_state_density_mat_from_name", "density-vs-vector", "density_mat of %r is not |v><v| (%.3g)" % (n, mx(dm, np.outer(v, v.conj()))), one)
+
+
 def legacy_states(ctx, case):
     q = Q(); c1 = csys("1qubit"); c2 = csys("2qubit")
     for n in ("x0", "x1", "y0", "y1", "z0", "z1", "a"):
@@ -431,20 +460,25 @@ def chk_states_any(ctx, case):
 
 def sub_states(ctx):
     lists = state_lists()
-    cases = []
+    cases = []; nfull = 0
     for sysname, names in lists.items():
         big = SYSDIM[sysname] >= 8
-        exact = set(names) if (not big or not ctx.quick) else set(ctx.rng.sample(names, 24))
-        for i in range(0, len(names), 40):
-            chunk = names[i:i + 40]
-            ex = [n for n in chunk if n in exact]; ne = [n for n in chunk if n not in exact]
-            if ex:
-                cases.append({"sys": sysname, "names": ex, "exact": True})
-            if ne:
-                cases.append({"sys": sysname, "names": ne, "exact": False})
+        if big and ctx.quick:
+            # every name: pure vector / density matrix against the table; all object forms on the non-product names and a seeded sample
+            special = [n for n in names if "_" not in n or state_code(n) is None or state_code(n)[0] not in (0, 4)]
+            full = special + ctx.rng.sample([n for n in names if n not in special], 8)
+            for i in range(0, len(names), 60):
+                cases.append({"sys": sysname, "names": names[i:i + 60], "light": True})
+        else:
+            full = names
+        nfull += len(full)
+        for i in range(0, len(full), 40):
+            cases.append({"sys": sysname, "names": full[i:i + 40], "exact": True})
     cases.append({"legacy": True})
     ctx.sample("states", {"sys": "2qubit", "names": lists["2qubit"][:3]}); ctx.run_cases("states", chk_states_any, cases)
-    ctx.note("states: all %d listed (system, name) pairs enumerated; exact PSD decision on all of them except, in the quick tier, a seeded sample of 24 per 8-/9-dimensional system (numerical eigenvalue check on the rest)" % sum(len(v) for v in lists.values()))
+    ctx.note("states: all %d listed (system, name) pairs generated and compared with the table as pure vector and density matrix; all object forms, model vec_of_pure and the exact PSD "
+             "decision on %d of them (quick tier: every 1-/2-qubit and 1-qutrit name, the non-product 3-qubit / 2-qutrit names and a seeded sample of 8 product names each; thorough tier: all)" % (
+                 sum(len(v) for v in lists.values()), nfull))
 
 
 # ================================================================== 3. POVMs
@@ -459,13 +493,15 @@ def chk_povm(ctx, case):
     site = "povm_typical.generate_povm_object_from_povm_name_object_name"
     parts = n.split("_")
     rank1 = all(p in q.pt.get_povm_names_rank1() for p in parts)
-    ctx.count("povms", key=(sysname, n), nontrivial=True, label=sysname)
+    light = bool(case.get("light"))
+    ctx.count("povms", key=(sysname, n, light), nontrivial=True, label=sysname + ("-light" if light else ""))
     try:
         pv = q.qt.generate_povm_object(n, "pure_state_vectors") if rank1 else None
         ms = q.qt.generate_povm_object(n, "matrices")
-        vs = q.pt.generate_povm_object_from_povm_name_object_name(n, "vectors", basis=c.basis())
-        p = q.qt.generate_povm_object(n, "povm", c)
-        p2 = q.qt.generate_qoperation("povm", n, c)
+        if not light:
+            vs = q.pt.generate_povm_object_from_povm_name_object_name(n, "vectors", basis=c.basis())
+            p = q.qt.generate_povm_object(n, "povm", c)
+            p2 = q.qt.generate_qoperation("povm", n, c)
     except Exception as e:
         V(ctx, "povms", site, "listed-name-not-generable", "POVM %r on %s: %s: %s" % (n, sysname, type(e).__name__, str(e)[:200]), case); return
     ms = [np.asarray(m) for m in ms]
@@ -474,9 +510,14 @@ def chk_povm(ctx, case):
         if len(t) != len(ms) or max(mx(a, b) for a, b in zip(ms, t)) > TTOL:
             V(ctx, "povms", "povm_typical.generate_povm_matrices_from_name", "differs-from-table", "POVM %r: %d elements, table %d, max difference %.3g" % (
                 n, len(ms), len(t), max([mx(a, b) for a, b in zip(ms, t)] + [0])), case)
+    else:
+        V(ctx, "povms", "povm_typical.get_povm_names", "name-not-in-table", "listed POVM name %r on %s has no textbook table" % (n, sysname), case)
     if pv is not None:
         if len(pv) != len(ms) or max(mx(np.outer(v, np.conj(v)), m) for v, m in zip(pv, ms)) > TTOL:
             V(ctx, "povms", site, "matrices-vs-vectors", "POVM %r: matrices are not the projectors of pure_state_vectors" % n, case)
+    if light:
+        # quick tier, 8- / 9-dimensional systems: the remaining forms (vectors, Povm object, physicality) are checked on a seeded sample
+        return
         # model: pure vectors -> coefficient vectors
         if case.get("model", True):
             r = [float(x) for x in ctx.get_model().call("c17.vecs", [d, len(pv)], bflat(basis) + [x for v in pv for x in cflat(v)])]
@@ -534,14 +575,20 @@ def chk_povm_any(ctx, case):
 
 
 def sub_povms(ctx):
-    lists = povm_lists(); cases = []
+    lists = povm_lists(); cases = []; nfull = 0
     for sysname, names in lists.items():
         big = SYSDIM[sysname] >= 8
-        exact = set(names) if (not big or not ctx.quick) else set(ctx.rng.sample(names, 6))
+        full = set(names) if (not big or not ctx.quick) else set(ctx.rng.sample(names, 5))
         for n in names:
-            cases.append({"sys": sysname, "name": n, "exact": n in exact, "model": (not big) or (not ctx.quick) or n in exact})
+            if n in full:
+                cases.append({"sys": sysname, "name": n, "exact": True, "model": True}); nfull += 1
+            else:
+                cases.append({"sys": sysname, "name": n, "light": True})
     cases.append({"legacy": True})
     ctx.sample("povms", cases[4]); ctx.run_cases("povms", chk_povm_any, cases)
+    ctx.note("povms: all %d listed (system, name) pairs generated as matrices (and pure_state_vectors for rank-1 names) and compared with the table; vectors / Povm object / "
+             "model vec_of_pure / exact PSD decision on %d of them (quick tier: every 1-/2-qubit and 1-qutrit name and a seeded sample of 5 per 8-/9-dimensional system; thorough tier: all)" % (
+                 sum(len(v) for v in lists.values()), nfull))
 
 
 # ================================================================== 4. gates and effective Lindbladians (1-3 qubits, 1 qutrit)
@@ -570,22 +617,31 @@ def chk_gate(ctx, case, light=False):
     q = Q(); sysname, n, ids = case["sys"], case["name"], case["ids"]
     c = csys(sysname, case.get("esys")); d = c.dim; basis = basis_of(c)
     dims = [2] * SYS[sysname][1] if SYS[sysname][0] == "qubit" else [3] * SYS[sysname][1]
-    full = case.get("full", True)        # Lindbladian object with physicality check, model HS for every dimension
+    # case flags (all default to the complete check; the quick tier switches parts off on the 8-dimensional system, see sub_gates):
+    #   full     model HS / generator also at d = 8
+    #   elphys   ask the Lindbladian object's physicality verdict (default: = full; 2 s at d = 8)
+    #   light    only unitary_mat, gate_mat, hamiltonian_mat (table, unitarity, unitary -> HS, exp(-iH)); no objects
+    #   verdict  build the Gate objects with is_physicality_required=True and ask Gate.is_physical() (at d = 8 the first such call
+    #            costs ~6 s inside quara: it tabulates B_a (x) conj(B_b) for the whole basis)
+    #   el_required  build the EffectiveLindbladian with is_physicality_required=full (otherwise False and is_physical() is called once)
+    full = case.get("full", True); light = case.get("light", False); verdict = case.get("verdict", True); el_required = case.get("el_required", True)
+    elphys = case.get("elphys", full)
     site = "gate_typical.generate_gate_object_from_gate_name_object_name"
-    ctx.count("gates", key=(sysname, n, tuple(ids), tuple(case.get("esys") or ())), nontrivial=n != "identity", label=sysname)
+    ctx.count("gates", key=(sysname, n, tuple(ids), tuple(case.get("esys") or ())), nontrivial=n != "identity", label=sysname + ("-light" if light else ""))
     try:
         u = np.asarray(q.qt.generate_gate_object(n, "unitary_mat", dims=dims, ids=ids))
         gm = np.asarray(q.qt.generate_gate_object(n, "gate_mat", dims=dims, ids=ids))
-        g = q.qt.generate_gate_object(n, "gate", dims=dims, ids=ids, c_sys=c)
-        g2 = q.qt.generate_qoperation("gate", n, c, ids=ids)
-        hv = np.asarray(q.qt.generate_effective_lindbladian_object(n, "hamiltonian_vec", dims=dims, ids=ids))
         hm = np.asarray(q.qt.generate_effective_lindbladian_object(n, "hamiltonian_mat", dims=dims, ids=ids))
-        lm = np.asarray(q.qt.generate_effective_lindbladian_object(n, "effective_lindbladian_mat", dims=dims, ids=ids))
-        el = q.qt.generate_effective_lindbladian_object(n, "effective_lindbladian", dims=dims, ids=ids, c_sys=c, is_physicality_required=full)
+        if not light:
+            g = q.qt.generate_gate_object(n, "gate", dims=dims, ids=ids, c_sys=c, is_physicality_required=verdict)
+            g2 = q.qt.generate_qoperation("gate", n, c, ids=ids, is_physicality_required=verdict)
+            hv = np.asarray(q.qt.generate_effective_lindbladian_object(n, "hamiltonian_vec", dims=dims, ids=ids))
+            lm = np.asarray(q.qt.generate_effective_lindbladian_object(n, "effective_lindbladian_mat", dims=dims, ids=ids))
+            el = q.qt.generate_effective_lindbladian_object(n, "effective_lindbladian", dims=dims, ids=ids, c_sys=c, is_physicality_required=elphys and el_required)
     except Exception as e:
         V(ctx, "gates", site, "listed-name-not-generable", "gate %r ids %s on %s: %s: %s" % (n, ids, sysname, type(e).__name__, str(e)[:200]), case); return
-    if u.shape != (d, d) or gm.shape != (d * d, d * d) or hm.shape != (d, d) or lm.shape != (d * d, d * d) or hv.shape != (d * d,):
-        V(ctx, "gates", site, "shape", "gate %r on %s: shapes %s %s %s %s %s" % (n, sysname, u.shape, gm.shape, hv.shape, hm.shape, lm.shape), case); return
+    if u.shape != (d, d) or gm.shape != (d * d, d * d) or hm.shape != (d, d) or (not light and (lm.shape != (d * d, d * d) or hv.shape != (d * d,))):
+        V(ctx, "gates", site, "shape", "gate %r on %s: shapes %s %s %s" % (n, sysname, u.shape, gm.shape, hm.shape), case); return
     m = ctx.get_model()
     # --- textbook table
     code = gate_code(sysname, n, ids)
@@ -612,24 +668,31 @@ def chk_gate(ctx, case, light=False):
         hs_m = np.array(r[:-1]).reshape(d * d, d * d)
         if r[-1] > TOL or mx(hs_m, gm) > TOL:
             V(ctx, "gates", "gate_typical.generate_gate_mat_from_gate_name", "unitary-vs-hs", "gate_mat of %r ids %s differs from model hs_of_kraus [U] by %.3g" % (n, ids, mx(hs_m, gm)), case)
+    # --- Hamiltonian matrix: Hermitian, exponential (numerical)
+    if mx(hm, hm.conj().T) > TOL:
+        V(ctx, "gates", "effective_lindbladian_typical.generate_hamiltonian_mat_from_gate_name", "not-hermitian", "hamiltonian_mat of %r ids %s is not Hermitian (%.3g)" % (n, ids, mx(hm, hm.conj().T)), case)
+    ue = taylor_expm(-1j * hm)
+    if mx(ue, u) > TOL:
+        V(ctx, "gates", "effective_lindbladian_typical.generate_hamiltonian_mat_from_gate_name", "exp-hamiltonian-vs-unitary", "exp(-iH) differs from unitary_mat of %r ids %s by %.3g (numerical)" % (n, ids, mx(ue, u)), case)
+    if light:
+        return
     if mx(g.hs, gm) > TOL or mx(g2.hs, gm) > TOL:
         V(ctx, "gates", "gate_typical.generate_gate_from_gate_name", "gate-vs-hs", "Gate object of %r ids %s differs from gate_mat by %.3g" % (n, ids, mx(g.hs, gm)), case)
-    # --- physical: verdicts, TP row, CP by exact PSD of the Choi matrix (built here from HS and basis)
-    ok = bool(g.is_physical()) and mx(g.hs[0], np.eye(d * d)[0]) <= TOL
+    # --- physical: verdicts, TP row, CP by exact PSD of the Choi matrix (built here from HS and basis); at d = 8 CP follows from
+    #     HS = hs_of_kraus [U] checked above (stated in ctx.assumptions)
+    ver = bool(g.is_physical()) if verdict else None
+    ok = ver is not False and mx(g.hs[0], np.eye(d * d)[0]) <= TOL
     if ok and d <= 4:
         ok = psd_exact(ctx, np_choi(basis, np.asarray(g.hs, dtype=float)))
     if not ok:
-        V(ctx, "gates", "gate_typical.generate_gate_from_gate_name", "unphysical", "gate %r ids %s on %s is not physical (verdict %s)" % (n, ids, sysname, g.is_physical()), case)
-    # --- Hamiltonian: vector <-> matrix (model op_of_vec), Hermitian, exponential (numerical)
+        V(ctx, "gates", "gate_typical.generate_gate_from_gate_name", "unphysical", "gate %r ids %s on %s is not physical (verdict %s)" % (n, ids, sysname, ver), case)
+    # --- Hamiltonian: vector <-> matrix (model op_of_vec)
     if d <= 4:
         hm_m = np.array(flow_c(m.call("c17.opvec", [d], bflat(basis) + rflat(hv)))).reshape(d, d)
     else:
         hm_m = sum(x * b for x, b in zip(hv, basis))
-    if mx(hm_m, hm) > TOL or mx(hm, hm.conj().T) > TOL:
+    if mx(hm_m, hm) > TOL:
         V(ctx, "gates", "effective_lindbladian_typical.generate_hamiltonian_vec_from_gate_name", "hvec-vs-hmat", "hamiltonian_vec of %r ids %s does not denote hamiltonian_mat (%.3g)" % (n, ids, mx(hm_m, hm)), case)
-    ue = taylor_expm(-1j * hm)
-    if mx(ue, u) > TOL:
-        V(ctx, "gates", "effective_lindbladian_typical.generate_hamiltonian_mat_from_gate_name", "exp-hamiltonian-vs-unitary", "exp(-iH) differs from unitary_mat of %r ids %s by %.3g (numerical)" % (n, ids, mx(ue, u)), case)
     # --- generator: model lind_of_ham, object, exponential (numerical)
     L_np = np_lind(basis, hm)
     if abs(L_np.imag).max() > TOL or mx(L_np.real, lm) > TOL:
@@ -643,7 +706,7 @@ def chk_gate(ctx, case, light=False):
         V(ctx, "gates", "effective_lindbladian_typical.generate_effective_lindbladian_from_gate_name", "object-vs-mat", "EffectiveLindbladian of %r ids %s differs from effective_lindbladian_mat (%.3g)" % (n, ids, mx(el.hs, lm)), case)
     if mx(taylor_expm(lm), gm) > TOL or mx(el.to_gate().hs, gm) > TOL:
         V(ctx, "gates", "effective_lindbladian_typical.generate_effective_lindbladian_from_gate_name", "exp-lindbladian-vs-hs", "exp(L) differs from gate_mat of %r ids %s by %.3g (numerical)" % (n, ids, mx(taylor_expm(lm), gm)), case)
-    if full and not el.is_physical():
+    if elphys and not el.is_physical():
         V(ctx, "gates", "effective_lindbladian_typical.generate_effective_lindbladian_from_gate_name", "unphysical", "EffectiveLindbladian of %r ids %s is not physical" % (n, ids), case)
 
 
@@ -676,11 +739,67 @@ def chk_gate_any(ctx, case):
 
 def sub_gates(ctx):
     cases = gate_cases(ctx)
-    for cs in cases:
-        # the Lindbladian object's physicality check and the d = 8 model runs cost seconds each: quick tier does them for two id orders
-        cs["full"] = (not ctx.quick) or cs["sys"] != "3qubit" or cs["ids"] in ([0, 1, 2], [2, 0, 1])
+    if ctx.quick:
+        # 3 qubits: the table / unitarity / unitary -> HS / exp(-iH) comparison for EVERY name and id order (light), all object forms for
+        # four (name, id order) pairs, the d = 8 model runs for two of them and the Lindbladian's physicality verdict (2 s) for one;
+        # Gate.is_physical() is not asked at d = 8 (6 s start-up inside quara); the thorough tier does everything for every case
+        allforms = {("toffoli", (2, 0, 1)), ("fredkin", (1, 2, 0)), ("toffoli", (0, 1, 2)), ("fredkin", (0, 2, 1))}
+        fullset = {("toffoli", (2, 0, 1)), ("fredkin", (1, 2, 0))}
+        for cs in cases:
+            if cs["sys"] == "3qubit":
+                key = (cs["name"], tuple(cs["ids"]))
+                cs.update({"light": key not in allforms, "full": key in fullset, "elphys": key == ("toffoli", (2, 0, 1)), "verdict": False, "el_required": False})
+            else:
+                cs["el_required"] = False
+                if cs["sys"] == "2qubit" and cs.get("esys"):
+                    cs["elphys"] = False        # the Lindbladian verdict (0.1 s) is asked on the default ids only
     cases.append({"legacy": True})
     ctx.sample("gates", cases[20]); ctx.run_cases("gates", chk_gate_any, cases)
+
+
+# ================================================================== 4b. id bookkeeping of the multi-qubit gates (permute_pauli_symbol)
+PAULI = "ixyz"
+
+
+def chk_permute(ctx, case):
+    """gate_typical.permute_pauli_symbol / get_permutation_matrix_from_ascending_order against Model/C17_Permute.v
+    (permute_fixed, matP; theorem C17_permute_fixed_spec: letter k lands on the elemental system ids[k], for all lengths and ids)"""
+    q = Q(); ids = list(case["ids"]); n = len(ids); syms = case["symbols"]; m = ctx.get_model()
+    vs = [[PAULI.index(ch) for ch in sy] for sy in syms]
+    flat = [x for v in vs for x in v]
+    fixed = [int(x) for x in m.call("c17.permute", [1, n] + ids + flat)]
+    mp_model = np.array([int(x) for x in m.call("c17.matp", [n] + ids)]).reshape(n, n)
+    mp_impl = np.asarray(q.gt.get_permutation_matrix_from_ascending_order(ids))
+    ctx.count("permute", key=("matP", tuple(ids)), nontrivial=ids != sorted(ids), label="n=%d" % n)
+    if mp_impl.shape != (n, n) or not np.array_equal(mp_impl, mp_model):
+        V(ctx, "permute", "gate_typical.get_permutation_matrix_from_ascending_order", "differs-from-model", "permutation matrix for ids %s is %s, model matP %s" % (ids, mp_impl.tolist(), mp_model.tolist()), case)
+    coded = None
+    for k, sy in enumerate(syms):
+        ctx.count("permute", key=(tuple(ids), sy), nontrivial=ids != sorted(ids) and len(set(sy)) > 1, label="n=%d" % n)
+        got = q.gt.permute_pauli_symbol(sy, ids)
+        want = "".join(PAULI[i] for i in fixed[k * n:(k + 1) * n])
+        if got == want:
+            continue
+        if coded is None:
+            coded = [int(x) for x in m.call("c17.permute", [0, n] + ids + flat)]
+        one = {"ids": ids, "symbols": [sy]}
+        if got == "".join(PAULI[i] for i in coded[k * n:(k + 1) * n]):
+            V(ctx, "permute", "gate_typical.permute_pauli_symbol", "ids-cyclic-permutation-inverted",
+              "permute_pauli_symbol(%r, %s) = %r: letter k must land on the elemental system ids[k], i.e. %r in ascending order of ids; the result is the one for the INVERSE "
+              "id permutation (matP applied instead of its transpose)" % (sy, ids, got, want), one)
+        else:
+            V(ctx, "permute", "gate_typical.permute_pauli_symbol", "differs-from-model", "permute_pauli_symbol(%r, %s) = %r, model permute_fixed gives %r" % (sy, ids, got, want), one)
+
+
+def sub_permute(ctx):
+    cases = []
+    for n, idsets in ((1, ([0], [4])), (2, ([0, 1], [2, 9])), (3, ([0, 1, 2], [1, 5, 8])), (4, ([0, 1, 2, 3], [0, 3, 4, 7]))):
+        allsyms = ["".join(t) for t in itertools.product(PAULI, repeat=n)]
+        for base in idsets:
+            for ids in itertools.permutations(base):
+                syms = allsyms if n <= 3 else sorted(ctx.rng.sample(allsyms, ctx.n(12, 64)))
+                cases.append({"ids": list(ids), "symbols": syms})
+    ctx.sample("permute", {"ids": cases[10]["ids"], "symbols": cases[10]["symbols"][:4]}); ctx.run_cases("permute", chk_permute, cases)
 
 
 # ================================================================== 5. textbook action triples
@@ -726,6 +845,14 @@ def gate_name_of(code):
     raise ValueError(code)
 
 
+def triple_gate(sysname, gname, ids, verdict):
+    """the Gate object of a triple (the same gate occurs in several triples: generated once per run)"""
+    key = ("tgate", sysname, gname, tuple(ids), bool(verdict))
+    if key not in _cache:
+        _cache[key] = Q().qt.generate_qoperation("gate", gname, csys(sysname), ids=list(ids), is_physicality_required=bool(verdict))
+    return _cache[key]
+
+
 def chk_triple(ctx, case):
     q = Q(); g_code, a_code, b_code = case["gate"], case["in"], case["out"]
     sysname, gname, ids = gate_name_of(g_code); c = csys(sysname); d = c.dim
@@ -734,7 +861,7 @@ def chk_triple(ctx, case):
     if "index" in case:
         if int(ctx.get_model().call("c17.triple_holds", [case["index"]])[0]) != 1:
             V(ctx, "triples", "Model/C17_Tables.triples_all", "table-triple", "table triple %d does not hold in the table algebra" % case["index"], case)
-    g = q.qt.generate_qoperation("gate", gname, c, ids=ids)
+    g = triple_gate(sysname, gname, ids, case.get("verdict", True))
     sa = q.qt.generate_qoperation("state", a_name, c); sb = q.qt.generate_qoperation("state", b_name, c)
     out = q.compose(g, sa)
     mv = np.array([float(x) for x in ctx.get_model().call("c17.apply", [d * d], rflat(g.hs) + rflat(sa.vec))])
@@ -744,7 +871,7 @@ def chk_triple(ctx, case):
     elif mx(out.vec, sb.vec) > TOL:
         what = "%s (ids %s) applied to %s gives a state differing from %s by %.3g (textbook triple, theorem C17_triples_hold)" % (gname, ids, a_name, b_name, mx(out.vec, sb.vec))
         inv = inverse_ids(ids) if sysname == "3qubit" else None
-        if inv is not None and inv != list(ids) and mx(q.compose(q.qt.generate_qoperation("gate", gname, c, ids=inv), sa).vec, sb.vec) <= TOL:
+        if inv is not None and inv != list(ids) and mx(q.compose(triple_gate(sysname, gname, inv, case.get("verdict", True)), sa).vec, sb.vec) <= TOL:
             V(ctx, "triples", "gate_typical.permute_pauli_symbol", "ids-cyclic-permutation-inverted", what + "; the gate generated for the inverse id permutation %s does satisfy it" % inv, case)
         else:
             V(ctx, "triples", site, "textbook-action", what, case)
@@ -753,6 +880,10 @@ def chk_triple(ctx, case):
 def sub_triples(ctx):
     ts = decode_triples(ctx.get_model().call("c17.triples"))
     cases = [{"index": i, "gate": t[0], "in": t[1], "out": t[2]} for i, t in enumerate(ts)]
+    if ctx.quick:
+        for cs in cases:
+            if cs["gate"][0] == 3:          # 3-qubit gates: Gate objects built without quara's own physicality verdict (see sub_gates)
+                cs["verdict"] = False
     ctx.sample("triples", cases[0]); ctx.run_cases("triples", chk_triple, cases)
     ctx.note("triples: %d (gate, input, output) triples, the list is read from the Coq table whose validity is theorem C17_triples_hold" % len(cases))
 
@@ -784,8 +915,9 @@ def chk_mprocess(ctx, case):
         pv = q.qt.generate_mprocess_object(n, "set_pure_state_vectors") if t1 else None
         ks = q.qt.generate_mprocess_object(n, "set_kraus_matrices")
         hss = q.qt.generate_mprocess_object(n, "hss", c)
-        mp = q.qt.generate_mprocess_object(n, "mprocess", c)
-        mp2 = q.qt.generate_qoperation("mprocess", n, c)
+        verdict = case.get("verdict", True)       # False (quick tier, d = 9): MProcess built without quara's own physicality verdict, see sub_gates
+        mp = q.qt.generate_mprocess_object(n, "mprocess", c, is_physicality_required=verdict)
+        mp2 = q.qt.generate_qoperation("mprocess", n, c, is_physicality_required=verdict)
     except Exception as e:
         V(ctx, "mprocess", site, "listed-name-not-generable", "mprocess %r on %s: %s: %s" % (n, sysname, type(e).__name__, str(e)[:200]), case); return
     ks = [[np.asarray(k) for k in out] for out in ks]
@@ -811,23 +943,30 @@ def chk_mprocess(ctx, case):
         if bad:
             V(ctx, "mprocess", "mprocess_typical.generate_mprocess_hss_from_name", "kraus-vs-hs", "mprocess %r outcome %d: HS matrix is not that of its Kraus set (%.3g)" % (n, x, mx(hs_np.real, hs)), case); break
     tot = sum(np.asarray(h, dtype=float) for h in mp.hss)
-    ok = bool(mp.is_physical()) and mx(tot[0], np.eye(d * d)[0]) <= TOL
+    ver = bool(mp.is_physical()) if verdict else None
+    ok = ver is not False and mx(tot[0], np.eye(d * d)[0]) <= TOL
     if ok:
         for h in mp.hss:
             ch = np_choi(basis, np.asarray(h, dtype=float))
             ok = ok and float(np.linalg.eigvalsh((ch + ch.conj().T) / 2).min()) >= -TOL and (d > 4 or psd_exact(ctx, ch))
     if not ok:
-        V(ctx, "mprocess", "mprocess_typical.generate_mprocess_from_name", "unphysical", "mprocess %r on %s is not physical (verdict %s, TP row defect %.3g)" % (n, sysname, mp.is_physical(), mx(tot[0], np.eye(d * d)[0])), case)
+        V(ctx, "mprocess", "mprocess_typical.generate_mprocess_from_name", "unphysical", "mprocess %r on %s is not physical (verdict %s, TP row defect %.3g)" % (n, sysname, ver, mx(tot[0], np.eye(d * d)[0])), case)
 
 
 def sub_mprocess(ctx):
     cases = mprocess_cases()
+    if ctx.quick:
+        for cs in cases:
+            if cs["sys"] == "2qutrit":
+                cs["verdict"] = False
     ctx.sample("mprocess", cases[3]); ctx.run_cases("mprocess", chk_mprocess, cases)
 
 
 # ================================================================== 7. state ensembles
 def chk_ensemble(ctx, case):
     q = Q(); n = case["name"]; c = csys("1qubit")
+    if n not in q.et.get_state_ensemble_names():          # (a replay of a name that has since left the catalogue)
+        ctx.count("ensembles", key=n, nontrivial=False, label="not-listed"); return
     ctx.count("ensembles", key=n, nontrivial=True, label="1qubit")
     try:
         e = q.qt.generate_qoperation_object("state_ensemble", n, "state_ensemble", c_sys=c)
@@ -858,15 +997,21 @@ def mutations(name, rng):
     return sorted(out)
 
 
-FOREIGN = ["x0", "z", "hadamard", "cx", "x-type1", "bell", "ghz", "identity", "xxparity", "zzparity", "01x90", "z3", "i01x90", "toffoli", "a", "x_x"]
+FOREIGN = ["x0", "z", "hadamard", "cx", "x-type1", "bell", "ghz", "identity", "xxparity", "zzparity", "01x90", "z3", "i01x90", "toffoli", "a", "x_x",
+           # names that are in NO catalogue of any family (hyphenated / truncated spellings of names above)
+           "xx-parity", "zzparity-", "-xxparity", "z-z-parity", "x-0", "bell-", "z-2", "x-type-1", "xtype1", "xxparity-type-1", "get_povm_xxparity"]
 
 
-def families():
+def families(quick=None):
     """family -> (seed names, validity predicate, probes: (form label, callable(name)))"""
+    if quick is not None:
+        _cache["families_quick"] = bool(quick)
+    quick = _cache.get("families_quick", False)
     if "families" in _cache:
         return _cache["families"]
     q = Q()
-    st_all = set(q.st.get_state_names()); pv_single = set(q.pt.get_povm_names_1qubit() + ["bell"] + q.pt.get_povm_names_1qutrit())
+    st_all = set(q.st.get_state_names())
+    pv_single = set(q.pt.get_povm_names_1qubit() + [n for n in q.pt.get_povm_names_2qubit() if "_" not in n] + q.pt.get_povm_names_1qutrit())
     g_all = set(q.gt.get_gate_names()); mp_single = set(q.mt.get_mprocess_names_type1() + q.mt.get_mprocess_names_type2())
     en_all = set(q.et.get_state_ensemble_names())
     c1, c2, c3, t1 = csys("1qubit"), csys("2qubit"), csys("3qubit"), csys("1qutrit")
@@ -883,8 +1028,11 @@ def families():
     # (every gate-name lookup in quara rebuilds the 39k-entry 2-qutrit list, ~13 ms: keep the number of probes moderate)
     gl = ["identity"] + q.gt.get_gate_names_1qubit() + q.gt.get_gate_names_2qubit() + q.gt.get_gate_names_3qubit() + q.gt.get_gate_names_1qutrit()[:4] + ["i01x90", "01x12y90_i02z180"]
     gprobes = []
-    for c, dims, ids, forms in ((c1, [2], [0], ("unitary_mat", "gate_mat", "gate", "hamiltonian_vec", "hamiltonian_mat", "effective_lindbladian_mat", "effective_lindbladian")),
-                                (c2, [2, 2], [0, 1], ("unitary_mat", "gate", "effective_lindbladian")), (t1, [3], [0], ("gate",))):
+    gforms = ((c1, [2], [0], ("unitary_mat", "gate_mat", "gate", "hamiltonian_vec", "hamiltonian_mat", "effective_lindbladian_mat", "effective_lindbladian")),
+              (c2, [2, 2], [0, 1], ("unitary_mat", "gate", "effective_lindbladian")), (t1, [3], [0], ("gate",)))
+    if quick:
+        gforms = ((c1, [2], [0], ("unitary_mat", "gate", "hamiltonian_vec", "effective_lindbladian")), (c2, [2, 2], [0, 1], ("gate",)), (t1, [3], [0], ("gate",)))
+    for c, dims, ids, forms in gforms:
         for form in forms:
             if form in ("unitary_mat", "gate_mat", "gate"):
                 gprobes.append((form, lambda n, c=c, dims=dims, ids=ids, form=form: q.qt.generate_gate_object(n, form, dims=dims, ids=ids, c_sys=c)))
@@ -907,7 +1055,7 @@ SITES = {"state": "state_typical.generate_state_object_from_state_name_object_na
 
 
 def chk_unknown(ctx, case):
-    fam = families()[case["family"]]; name = case["name"]
+    fam = families(case.get("quick"))[case["family"]]; name = case["name"]
     _, valid, probes = fam
     if valid(name):
         ctx.count("unknown_names", key=(case["family"], name), nontrivial=False, label="skipped-valid"); return
@@ -946,16 +1094,17 @@ def chk_unknown_any(ctx, case):
 
 
 def sub_unknown(ctx):
-    fam = families(); cases = []
+    fam = families(ctx.quick); cases = []
     for f, (seeds, valid, probes) in fam.items():
         names = set()
         for s in seeds:
             names.update(mutations(s, ctx.rng))
         names = sorted(n for n in names if not valid(n))
-        if ctx.quick and len(names) > 60:
-            names = sorted(ctx.rng.sample(names, 60))
-        cases += [{"family": f, "name": n} for n in names]
-        cases += [{"family": f, "name": n, "foreign": True} for n in FOREIGN]
+        cap = 20 if f == "gate" else 60          # every gate-name lookup in quara rebuilds the 39k-entry 2-qutrit list (13 ms)
+        if ctx.quick and len(names) > cap:
+            names = sorted(ctx.rng.sample(names, cap))
+        cases += [{"family": f, "name": n, "quick": ctx.quick} for n in names]
+        cases += [{"family": f, "name": n, "foreign": True, "quick": ctx.quick} for n in FOREIGN]
     for f in ("state", "povm", "gate", "mprocess", "effective_lindbladian", "state_ensemble", "mode"):
         for bad in ("", "stat", "State", "gate_", "unitary", "object"):
             cases.append({"family": f, "object_name": bad})
@@ -966,9 +1115,9 @@ def sub_unknown(ctx):
 _W = {}
 
 
-def _w_init(tbl_single):
+def _w_init(tbl_single, verdict=True):
     warnings.simplefilter("ignore")
-    _W["tbl"] = tbl_single
+    _W["tbl"] = tbl_single; _W["verdict"] = bool(verdict)
     _W["c"] = csys("2qutrit"); _W["basis"] = basis_of(_W["c"])
 
 
@@ -977,14 +1126,19 @@ def ham_of(name, tbl):
 
 
 def _w_check(arg):
-    """numerical self-consistency of one 2-qutrit gate name; returns list of (site, signature, what)"""
-    name, heavy = arg
-    q = Q(); c = _W["c"]; basis = _W["basis"]; tbl = _W["tbl"]; out = []
+    """numerical self-consistency of one 2-qutrit gate name; returns list of (site, signature, what).
+    level 0: unitary_mat and hamiltonian_mat (table, unitarity, exp(-iH) = U); level 1: + Gate object (HS matrix of U, TP, verdict);
+    level 2: + gate_mat, hamiltonian_vec, effective_lindbladian_mat, EffectiveLindbladian (all seven object forms).
+    Every object form of a 2-qutrit name is computed by quara from the name's Hamiltonian through helpers shared by all names."""
+    name, level = arg
+    level = 2 if level is True else int(level); heavy = level >= 2
+    q = Q(); c = _W["c"]; basis = _W["basis"]; tbl = _W["tbl"]; out = []; verdict = _W.get("verdict", True)
     dims, ids = [3, 3], [0, 1]
     try:
         u = np.asarray(q.gt.generate_unitary_mat_from_gate_name(name, dims, ids))
-        g = q.gt.generate_gate_from_gate_name(name, c, ids)
         hm = np.asarray(q.lt.generate_hamiltonian_mat_from_gate_name(name, dims, ids))
+        if level >= 1:
+            g = q.gt.generate_gate_from_gate_name(name, c, ids, is_physicality_required=verdict)
         if heavy:
             gm = np.asarray(q.gt.generate_gate_mat_from_gate_name(name, dims, ids))
             hv = np.asarray(q.lt.generate_hamiltonian_vec_from_gate_name(name, dims, ids))
@@ -1003,10 +1157,12 @@ def _w_check(arg):
         out.append(("gate_typical.generate_unitary_mat_from_gate_name", "not-unitary", "unitary of %r: |U^dagger U - I| = %.3g" % (name, mx(u.conj().T @ u, np.eye(9)))))
     if mx(taylor_expm(-1j * hm), u) > TOL:
         out.append(("effective_lindbladian_typical.generate_hamiltonian_mat_from_gate_name", "exp-hamiltonian-vs-unitary", "exp(-iH) differs from unitary_mat of %r by %.3g (numerical)" % (name, mx(taylor_expm(-1j * hm), u))))
+    if level < 1:
+        return [(a, b, c_, name) for a, b, c_ in out]
     hs_np = np_hs_from_kraus(basis, [u])
     if abs(hs_np.imag).max() > TOL or mx(hs_np.real, g.hs) > TOL:
         out.append(("gate_typical.generate_gate_from_gate_name", "unitary-vs-hs", "Gate %r is not the HS matrix of its unitary_mat (%.3g)" % (name, mx(hs_np.real, g.hs))))
-    if not g.is_physical() or mx(g.hs[0], np.eye(81)[0]) > TOL:
+    if (verdict and not g.is_physical()) or mx(g.hs[0], np.eye(81)[0]) > TOL:      # CP: HS = hs_of_kraus [U] above, U unitary
         out.append(("gate_typical.generate_gate_from_gate_name", "unphysical", "2-qutrit gate %r is not physical" % name))
     if heavy:
         if mx(gm, g.hs) > TOL:
@@ -1019,6 +1175,23 @@ def _w_check(arg):
         if mx(taylor_expm(lm), g.hs) > TOL or mx(el.to_gate().hs, g.hs) > TOL:
             out.append(("effective_lindbladian_typical.generate_effective_lindbladian_from_gate_name", "exp-lindbladian-vs-hs", "exp(L) differs from the gate of %r (numerical)" % name))
     return [(a, b, c_, name) for a, b, c_ in out]
+
+
+def _w_ham_batch(names):
+    """level -1: the name-specific step of every 2-qutrit object form - name -> Hamiltonian
+    (gate_typical.calc_hamiltonian_mat_from_gate_name_2qutrit_base_matrices, no catalogue look-up) - against (pi/4) x the Coq table"""
+    q = Q(); tbl = _W["tbl"]; out = []
+    f = q.gt.calc_hamiltonian_mat_from_gate_name_2qutrit_base_matrices
+    for name in names:
+        try:
+            hm = np.asarray(f(name))
+        except Exception as e:
+            out.append(("gate_typical.calc_hamiltonian_mat_from_gate_name_2qutrit_base_matrices", "listed-name-not-generable", "2-qutrit gate %r: %s: %s" % (name, type(e).__name__, str(e)[:200]), name)); continue
+        if not all(p in tbl for p in name.split("_")):
+            out.append(("gate_typical.get_gate_names_2qutrit", "name-not-in-table", "2-qutrit name %r has no table Hamiltonian" % name, name)); continue
+        if hm.shape != (9, 9) or mx(hm, ham_of(name, tbl)) > TTOL * 10:
+            out.append(("effective_lindbladian_typical.generate_hamiltonian_mat_from_gate_name", "differs-from-table", "Hamiltonian of %r differs from (pi/4) x table by %.3g" % (name, mx(hm, ham_of(name, tbl))), name))
+    return out
 
 
 def single_tables(ctx):
@@ -1039,8 +1212,9 @@ def chk_2qutrit(ctx, case):
     name = case["name"]
     tbl = _cache.get("tbl2t") or single_tables(ctx); _cache["tbl2t"] = tbl
     if "c" not in _W:
-        _w_init(tbl)
-    for site, sig, what, _ in _w_check((name, True)):
+        _w_init(tbl, case.get("verdict", True))
+    _W["verdict"] = bool(case.get("verdict", True))
+    for site, sig, what, _ in _w_ham_batch([name]) + _w_check((name, 2)):
         V(ctx, "gates_2qutrit", site, sig, what, case)
     ctx.count("gates_2qutrit", key=name, nontrivial=True, label="model-tied")
     if case.get("model"):
@@ -1053,7 +1227,7 @@ def chk_2qutrit(ctx, case):
             if mx(hm, K * (math.pi / 4)) > TTOL * 10:
                 V(ctx, "gates_2qutrit", "effective_lindbladian_typical.generate_hamiltonian_mat_from_gate_name", "differs-from-table", "Hamiltonian of %r differs from the Coq table ham2t by %.3g" % (name, mx(hm, K * (math.pi / 4))), case)
         u = np.asarray(q.gt.generate_unitary_mat_from_gate_name(name, [3, 3], [0, 1]))
-        g = q.gt.generate_gate_from_gate_name(name, c, [0, 1])
+        g = q.gt.generate_gate_from_gate_name(name, c, [0, 1], is_physicality_required=_W["verdict"])
         r = [float(x) for x in ctx.get_model().call("c17.hs_kraus", [9, 1], bflat(basis) + cflat(u))]
         if r[-1] > TOL or mx(np.array(r[:-1]).reshape(81, 81), g.hs) > TOL:
             V(ctx, "gates_2qutrit", "gate_typical.generate_gate_from_gate_name", "unitary-vs-hs", "Gate %r differs from model hs_of_kraus [U] by %.3g" % (name, mx(np.array(r[:-1]).reshape(81, 81), g.hs)), case)
@@ -1066,33 +1240,67 @@ def sub_2qutrit(ctx):
     allnames = gt.get_gate_names_2qutrit()
     if set(allnames) != set(singles) | set(doubles):
         V(ctx, "gates_2qutrit", "gate_typical.get_gate_names_2qutrit", "catalogue-lists-disagree", "get_gate_names_2qutrit is not the union of its two sub-lists", {"n": len(allnames)})
+    import time
+    t0 = time.time()
     tbl = single_tables(ctx); _cache["tbl2t"] = tbl
+    t1 = time.time()
+    verdict = not ctx.quick
+    # Every object form of a 2-qutrit name is computed from the name's Hamiltonian by helpers shared by all names, and every dispatcher
+    # call costs 25 ms per catalogue look-up inside quara (0.1 - 0.6 s per name).  Hence two layers:
+    #   hnames  name -> Hamiltonian against the Coq table (0.2 ms per name): ALL 39k names in the thorough tier, a seeded 3000 in the quick tier
+    #   names   the dispatchers (level 0 unitary_mat + hamiltonian_mat, 1 + Gate object, 2 all seven object forms):
+    #           quick: 20 + 40 sampled names at level 1, every 16th at level 2;
+    #           thorough: all 198 single-base-matrix names at level 1 and every 8th two-base-matrix name (every 32nd level 1, every 128th level 2)
     if ctx.quick:
-        names = ctx.rng.sample(singles, min(len(singles), 110)) + ctx.rng.sample(doubles, min(len(doubles), 250))
+        names = ctx.rng.sample(singles, min(len(singles), 20)) + ctx.rng.sample(doubles, min(len(doubles), 40))
+        level = {n: (2 if i % 16 == 0 else 1) for i, n in enumerate(names)}
+        hnames = sorted(set(singles) | set(ctx.rng.sample(doubles, min(len(doubles), 3000))))
     else:
-        names = list(allnames)
-    heavy = set(names[::16])
-    nproc = max(1, min(16, os.cpu_count() or 1, len(names)))
+        names = list(singles) + list(doubles[::8])
+        level = {n: 1 for n in singles}
+        level.update({n: (2 if i % 16 == 0 else 1 if i % 4 == 0 else 0) for i, n in enumerate(doubles[::8])})
+        hnames = list(allnames)
+        # quara tabulates B_a (x) conj(B_b) on the first physicality verdict of a composite system (7 s at d = 9):
+        # do it once here, the forked workers inherit the cache
+        Q().gt.generate_gate_from_gate_name(singles[0], csys("2qutrit"), [0, 1]).is_physical()
+    nproc = max(1, min(8 if ctx.quick else 16, os.cpu_count() or 1, len(names)))
     fails = []
-    with mp.get_context("fork").Pool(nproc, initializer=_w_init, initargs=(tbl,)) as pool:
-        for res in pool.imap_unordered(_w_check, [(n, n in heavy) for n in names], chunksize=8):
+    with mp.get_context("fork").Pool(nproc, initializer=_w_init, initargs=(tbl, verdict)) as pool:
+        for res in pool.imap_unordered(_w_ham_batch, [hnames[i:i + 500] for i in range(0, len(hnames), 500)]):
             fails += res
+        for res in pool.imap_unordered(_w_check, [(n, level[n]) for n in names], chunksize=2 if ctx.quick else 8):
+            fails += res
+    t2 = time.time()
+    for n in hnames:
+        ctx.count("gates_2qutrit", key=(n, "hamiltonian"), nontrivial=True, label=("single" if "_" not in n else "double") + "-hamiltonian")
     for n in names:
-        ctx.count("gates_2qutrit", key=n, nontrivial=True, label="single" if "_" not in n else "double")
+        ctx.count("gates_2qutrit", key=n, nontrivial=True, label=("single" if "_" not in n else "double") + "-level%d" % level[n])
     for site, sig, what, name in sorted(fails, key=lambda t: (t[0], t[1], t[3])):
-        V(ctx, "gates_2qutrit", site, sig, what, {"name": name})
+        V(ctx, "gates_2qutrit", site, sig, what, {"name": name, "verdict": verdict})
     # model-tied sample in the main process (hs_of_kraus at d = 9 costs seconds)
-    tied = ctx.rng.sample(singles, 2) + ctx.rng.sample(doubles, ctx.n(2, 12))
+    tied = ctx.rng.sample(singles, ctx.n(1, 2)) + ctx.rng.sample(doubles, ctx.n(1, 12))
     ctx.sample("gates_2qutrit", {"name": tied[-1], "model": True})
-    ctx.run_cases("gates_2qutrit", chk_2qutrit, [{"name": n, "model": True} for n in tied])
-    ctx.note("2-qutrit gates: %d of %d names checked numerically on %d worker processes (all of them in the thorough tier), every 16th with all seven object forms; %d tied to the Coq model (ham2t table, hs_of_kraus)" % (
-        len(names), len(allnames), nproc, len(tied)))
+    ctx.run_cases("gates_2qutrit", chk_2qutrit, [{"name": n, "model": True, "verdict": verdict} for n in tied])
+    ctx.note("2-qutrit gates: Hamiltonian of %d of %d names against the Coq table (all of them in the thorough tier); %d names through quara's dispatchers on %d worker processes, "
+             "levels (0 unitary + Hamiltonian, 1 + Gate object, 2 all seven object forms): %s; %d tied to the Coq model (ham2t table, hs_of_kraus); Gate.is_physical() verdicts %s" % (
+        len(hnames), len(allnames), len(names), nproc, {k: sum(1 for v in level.values() if v == k) for k in (0, 1, 2)}, len(tied), "asked" if verdict else "not asked in the quick tier (CP/TP certified through HS = hs_of_kraus [U], U unitary, TP row)"))
+    ctx.note("2-qutrit gates wall (s): tables %.1f, worker pool %.1f, model-tied sample %.1f" % (t1 - t0, t2 - t1, time.time() - t2))
 
 
-SUBS = [("bases", sub_bases), ("states", sub_states), ("povms", sub_povms), ("gates", sub_gates), ("triples", sub_triples),
+SUBS = [("bases", sub_bases), ("states", sub_states), ("povms", sub_povms), ("gates", sub_gates), ("permute", sub_permute), ("triples", sub_triples),
         ("mprocess", sub_mprocess), ("ensembles", sub_ensembles), ("unknown_names", sub_unknown), ("gates_2qutrit", sub_2qutrit)]
-FNS = {"bases": chk_basis, "states": chk_states_any, "povms": chk_povm_any, "gates": chk_gate_any, "triples": chk_triple, "mprocess": chk_mprocess,
+FNS = {"bases": chk_basis, "states": chk_states_any, "povms": chk_povm_any, "gates": chk_gate_any, "permute": chk_permute, "triples": chk_triple, "mprocess": chk_mprocess,
        "ensembles": chk_ensemble, "unknown_names": chk_unknown_any, "gates_2qutrit": chk_2qutrit}
+
+
+def _timed(name, fn):
+    def wrapped(ctx):
+        import time
+        def cpu():
+            t = os.times(); return t[0] + t[1] + t[2] + t[3]          # own + reaped children (worker pool; not the model driver)
+        t0 = time.time(); c0 = cpu(); fn(ctx)
+        _cache.setdefault("times", []).append((name, time.time() - t0, cpu() - c0))
+    return wrapped
 
 
 def run(ctx):
@@ -1103,7 +1311,8 @@ def run(ctx):
     ctx.assumptions = ["C17: the tables of Model/C17_Tables.v are the textbook meaning of the names (trusted spec, proved self-consistent in Props/C17.v)",
                        "C17: Hamiltonian / Lindbladian exponentials are compared numerically (own Taylor series vs the implementation), not derived; "
                        "CP of 8- and 9-dimensional gates is certified through the Kraus form HS = hs_of_kraus [U] (NumPy; Coq model on a sample), not by an exact PSD decision"]
-    flow.standard_run(ctx, SUBS)
+    flow.standard_run(ctx, [(name, _timed(name, fn)) for name, fn in SUBS])
+    ctx.note("wall / cpu time per sub-check (s): " + ", ".join("%s %.1f/%.1f" % kv for kv in _cache.get("times", [])))
 
 
 def replay(ctx, doc):
